@@ -162,8 +162,14 @@ pub fn check_port(c: &PortCase, st: &mut Stats) -> Result<(), String> {
 }
 
 pub fn run(ctx: &Ctx) {
+    run_product(ctx, "product");
+    // the same product with a logger installed at Trace level (log arguments are evaluated only then)
+    crate::engine::with_logging(|| run_product(ctx, "product+logging"));
+}
+
+fn run_product(ctx: &Ctx, part: &str) {
     let n_prior = 14 * 4 * 3 * 2 * 3;
-    par_range(ctx, "product", n_prior as u64, |i, st| {
+    par_range(ctx, part, n_prior as u64, |i, st| {
         let mut k = i as usize;
         let mut prior = [0usize; 5];
         for (slot, base) in prior.iter_mut().zip([14usize, 4, 3, 2, 3]) {
@@ -201,7 +207,7 @@ pub fn run(ctx: &Ctx) {
         st.nontrivial_enumerated(nt);
         Ok(())
     });
-    ctx.part_done("product", true, json!({"prior_settings": n_prior, "entry_points": 3, "failure_points": 5, "error_kinds": 3, "configure_port_timeouts_ms": TIMEOUTS_MS}));
+    ctx.part_done(part, true, json!({"prior_settings": n_prior, "entry_points": 3, "failure_points": 5, "error_kinds": 3, "configure_port_timeouts_ms": TIMEOUTS_MS}));
 }
 
 pub fn replay(_part: &str, case: &Value) -> Result<(), String> {
